@@ -304,6 +304,38 @@ func cmdCheck(args []string) int {
 		}
 	}
 
+	// native cross-validation of passing paths: the same inputs must not fail against the real build
+	if !*noReplay && os.Getenv("SYMGO_NO_SAMPLES") == "" {
+		byPkg := map[string][]int{}
+		for i := range outcomes {
+			byPkg[specs[i].pkgDir] = append(byPkg[specs[i].pkgDir], i)
+		}
+		for pd, idxs := range byPkg {
+			var names []string
+			var vecs [][]InputValue
+			for _, i := range idxs {
+				if _, hasFinding := anyFinding(outcomes[i].Run); hasFinding {
+					continue // a harness with findings is replayed through its findings
+				}
+				for _, v := range outcomes[i].Run.PathSamples {
+					names = append(names, outcomes[i].Run.Name)
+					vecs = append(vecs, v)
+				}
+			}
+			if len(vecs) == 0 {
+				continue
+			}
+			n, bad, err := replaySamples(cfg, pd, names, vecs, known)
+			replayed += n
+			if err != nil {
+				inconclusive = append(inconclusive, "sample replay: "+err.Error())
+			}
+			for _, b := range bad {
+				inconclusive = append(inconclusive, "ENGINE-MISMATCH "+b)
+			}
+		}
+	}
+
 	violations := 0
 	for _, f := range allFindings {
 		switch {
@@ -354,6 +386,13 @@ func cmdCheck(args []string) int {
 		fmt.Printf("OK property=%s tier=%s held on everything explored (%.1fs)\n", prop, *tier, time.Since(start).Seconds())
 	}
 	return exit
+}
+
+func anyFinding(h *HarnessRun) (*Finding, bool) {
+	for _, f := range h.Findings {
+		return f, true
+	}
+	return nil, false
 }
 
 func flagSet(fs *flag.FlagSet, name string) bool {
